@@ -109,7 +109,7 @@ def model_params(cfg, max_conn=6, pinned=()):
         aorder.append(a["name"])
         apps[a["name"]] = {"id": a["id"], "auth": a["auth"], "acct": a["acct"], "peers": [name2host[x] for x in a["peers"]],
                            "realms": list(a["realms"]), "kind": a["kind"], "handler": a["handler"] if isinstance(a["handler"], str) else "hold",
-                           "max": a.get("max_threads", 0)}
+                           "max": a.get("max_threads", 0), "late": bool(a.get("late", False))}
     return {"node": {"host": nc["host"], "realm": nc["realm"], "idle": nc["idle"], "dwa": nc["dwa"], "cer": nc["cer"],
                      "cea": nc["cea"], "wakeup": nc["wakeup"], "retx": nc["retx"], "validate": nc["validate"], "samehbh": bool(nc.get("samehbh")),
                      # what the node says about itself (World sets these explicitly): content clauses of Mon_C06 / Mon_C11 / Mon_C20
@@ -313,6 +313,8 @@ class Runner:
             w.run()
         elif a == "connect_result":
             w.finish_connect(self._vc(act["c"]), act["err"])
+        elif a == "addapp":
+            w.add_app(act["app"])
         elif a == "tick":
             w.tick(1)
         elif a == "jump":
@@ -473,7 +475,9 @@ class Gen:
         """every fifth CER spells a configured peer's name in upper case (identities are case-insensitive); derived from the
         identifiers so that the random stream stays as it was"""
         if m["cmd"] == "CE" and m["req"] and (m["hbh"] + m["e2e"]) % 5 == 0 and any(p["host"] == m["oh"] for p in self.r.full_cfg["peers"]):
-            m = dict(m, oh=m["oh"].upper())
+            # (an end-to-end identifier of its own: the node files the answer under the name as spelled, the model and the monitors
+            #  under the configured name - a later retransmission-flagged request reusing the CER's identifier would tell them apart)
+            m = dict(m, oh=m["oh"].upper(), e2e=m["e2e"] + 900000)
         return m
 
     def message(self, vc):
